@@ -50,6 +50,15 @@ def _retained_history(path, seed, big):
     r2 = nir.read(path); s2 = snap(r2)
     if compare.graph_diff(B, r2):
         return "read does not return the most recent write"
+    # edit the result of an earlier read in place (parameters, metadata) *without* saving: the path still holds B
+    r2.nodes["fc"].bias[...] = -7.0
+    r2.nodes["fc"].weight[0, 0] = 123.0
+    r2.nodes["in"].metadata["note"] = "scratch"
+    r2.metadata["tag"] = "edited"
+    r2b = nir.read(path)
+    if compare.graph_diff(B, r2b):
+        return "a later read of the unchanged path is affected by in-place edits of an earlier read result"
+    r2 = r2b; s2 = snap(r2)
     r1.nodes["fc"].bias[...] = 0.5          # modify what was loaded, save it to the same path
     nir.write(path, r1)
     if snap(r2) != s2:
